@@ -774,6 +774,11 @@ func (s *scanner) ReadStreamData(dict Dict) (stm *Stream, err error) {
 	if hasLength {
 		if n, err := s.getInt(lengthObj); err == nil && n >= 0 {
 			declared = int64(n)
+		} else if IsReadError(err) && !errors.Is(err, io.EOF) && !errors.Is(err, io.ErrUnexpectedEOF) {
+			// A failure of the byte source while fetching an indirect
+			// /Length says nothing about the length itself.  (Reaching the
+			// end of the data is a property of the file, not a failure.)
+			return nil, err
 		}
 	}
 
